@@ -436,7 +436,8 @@ Spec == Init /\ [][Next]_vars
 
 \* everything but the per-call observations (the step properties below are
 \* action properties, which TLC evaluates on every transition)
-View == <<codeVars, envVars, told, toldAt>>
+\* reorgDepth is left out as well: it is only reported (NegativeConf carries it), nothing reads it
+View == <<chain, csets, ssets, regs, byConf, byInit, spBy, chint, shint, panic, envVars, told, toldAt>>
 
 -----------------------------------------------------------------------------
 (* The property (properties.jsonl C14), written from its statement.         *)
